@@ -17,6 +17,10 @@ for mp in sorted(glob.glob(os.path.join(os.path.dirname(os.path.dirname(os.path.
                 break
     res = "missed" if not m.get("detected") else ("VIOLATION + failing input" if m.get("detected_with_failing_input") else "VIOLATION no-failing-input-found")
     suite = m.get("suite")
+    if m.get("stale"):
+        res += f" (last verified at /repo {m.get('repo_head')}; patch no longer applies to the repaired code)"
+    elif m.get("repo_head"):
+        res += f" (/repo {m.get('repo_head')})"
     rows.append(f"| {name} | {what} | {'yes' if m.get('demo_confirms') else 'NO'} | {('%d/%d' % (suite['stable_pass'] - len(suite['baseline_tests_not_passing']), suite['stable_pass'])) if suite else 'by seeder'} | {res} | {rf.get('class') or ''} |")
 print("| seeded change | what it is (first line of its notes) | demo fails with / passes without | suite | ./check result | finding class |")
 print("|---|---|---|---|---|---|")
